@@ -16,6 +16,9 @@ structure Shape where
   removeRootOnReturn : Bool
   sanityDirRemoved : Bool       -- check_sanity removes its directory on success, and on failure unless save_temps
   candidateDirsInsideRoot : Bool -- candidate directories are created with `dir=self.root`
+  killAfterEveryRound : Bool := true   -- `kill_pid_queue()` follows every `run_parallel_tests()` unconditionally
+  killOnError : Bool := true           -- the handler for exceptions other than KeyboardInterrupt calls `kill_pid_queue()`
+  killOnInterrupt : Bool := true
 deriving Repr, DecidableEq
 
 inductive PassExit | gated | zeroSize | normal | cviseError | foreign | interrupt
@@ -29,6 +32,16 @@ def rootLeft (sh : Shape) (saveTemps : Bool) : PassExit → Bool
   | .cviseError => saveTemps || !sh.removeRootOnError
   | .foreign => saveTemps || !sh.removeRootOnError
   | .interrupt => saveTemps || !sh.removeRootOnInterrupt
+
+/-- can a test script announced as started (and its children) still be running after `run_pass` left through this exit?
+    Workers are torn down with the pool; the scripts they started are only reached by `kill_pid_queue()` -/
+def scriptsLeft (sh : Shape) : PassExit → Bool
+  | .gated => false
+  | .zeroSize => false                               -- nothing was started yet
+  | .normal => !sh.killAfterEveryRound
+  | .cviseError => !sh.killOnError
+  | .foreign => !sh.killOnError
+  | .interrupt => !sh.killOnInterrupt
 
 /-- candidate directories outlive the pass only if the root does (they live inside it) or they were moved out on purpose
     (`cvise_extra_*`, which is in the working directory, not under TMPDIR) -/
